@@ -211,8 +211,11 @@ func c05Table() (*an.Analysis, *an.Struct, []string) {
 	if vfChoice("unique", 2) == 1 && mask&2 != 0 {
 		st.Comments = append(st.Comments, an.SpecialComment{Kind: an.CommentSQL, Content: "ADD UNIQUE(Other)"})
 	}
-	if vfChoice("selectkey", 2) == 1 && mask&1 != 0 {
+	switch sk := vfChoice("selectkey", 3); {
+	case sk == 1 && mask&1 != 0:
 		st.Comments = append(st.Comments, an.SpecialComment{Kind: an.CommentSQL, Content: "_SELECT KEY(Name)"})
+	case sk == 2 && mask&2 != 0: // a select key made of one foreign key column (it is not a UNIQUE constraint)
+		st.Comments = append(st.Comments, an.SpecialComment{Kind: an.CommentSQL, Content: "_SELECT KEY(Other)"})
 	}
 	ana := &an.Analysis{Pkg: &packages.Package{PkgPath: pkg.Path(), Types: pkg}, Types: map[types.Type]an.Type{named: st}, Source: []types.Type{named}}
 	var cols []string
@@ -262,6 +265,19 @@ func HC05_statements() {
 		}
 	}
 	vfAssert(okPH, "C05/as-many-placeholders-as-arguments-numbered-1-to-n")
+	// a guard column is left out of every statement: the schema must give it its default and its check
+	if isCol["guard"] {
+		vfAssert(strings.Contains(schema, "ALTER TABLE "+table+" ALTER COLUMN Guard SET DEFAULT 1;") && strings.Contains(schema, "ALTER TABLE "+table+" ADD CHECK(Guard = 1);"),
+			"C05/guard-columns-omitted-by-the-crud-code-get-their-default-from-the-schema")
+	}
+	// the select-one-by-foreign-key function (item, found, err) relies on a UNIQUE constraint of the schema
+	if isCol["other"] {
+		hasUnique := false
+		for _, c := range st.Comments {
+			hasUnique = hasUnique || c.Content == "ADD UNIQUE(Other)"
+		}
+		vfAssert(strings.Contains(text, "func SelectItemByOther(tx DB,") == hasUnique, "C05/select-one-by-foreign-key-exists-iff-the-schema-declares-it-unique")
+	}
 	vfAssert(okNames, "C05/statements-name-only-the-table-and-its-columns")
 }
 
